@@ -17,6 +17,11 @@ Tie, re-established on every run:
      run in FRESH interpreters under different PYTHONHASHSEED values, prior histories (0 / 10^3 / 10^5 Syms and
      hundreds of unrelated procedures, classes, configs), gc on/off and module layouts; all texts must be
      byte-identical.  Any difference is a violation  nondet:<str|c|h|sched|err>:<varying factor>:<site hint>.
+     (err:* = exception type + message of a failing print/compile, compared modulo source positions and the counter
+     suffix of repr(Sym); sched = the accept/refuse log of the replayed schedule.)
+  4. dedicated witnesses of the known defects, with ONE factor varying: four Memory classes / four Extern objects
+     sharing one name() (keys nondet:c:prior-history:memories-same-name, ...:externs-same-name, also under
+     hashseed), and a procedure needing both static helpers (nondet:c:hashseed:static-helpers).
 """
 from __future__ import annotations
 
@@ -186,7 +191,7 @@ def run(ck: common.Check):
     # sessions
     hand = [dict(h, kind="hand", hint_id=h["id"]) for h in S.HAND if not h["witness"]]
     wit = [dict(h, kind="hand", hint_id=h["hint"]) for h in S.HAND if h["witness"]]
-    n_gen = ck.n(8, 36)
+    n_gen = ck.n(8, 24)
     gen = []
     feats = [None, {"divmod": 0.9, "calls": 0.7}, {"config": 0.8, "windows": 0.7, "extern": 0.5},
              {"calls": 0.9, "windows": 0.8, "config": 0.6}, {"shadow": 0.5, "divmod": 0.8, "nonzero_lo": 0.6}]
@@ -292,7 +297,7 @@ def run(ck: common.Check):
     sessions = hand + gen_ok
 
     hs_list = ["0", "1", "2", "3"] if quick else ["0", "1", "2", "3", "7", "17", "4242", "99991"]
-    nproc2 = ck.n(100, 300)
+    nproc2 = ck.n(100, 200)
     levels = [("none", {}), ("1e3", {"syms": 1000, "procs": ck.n(60, 100), "objects": 1000}),
               ("1e5", {"syms": 100000, "procs": nproc2, "objects": 100000})]
     variants = []
